@@ -148,4 +148,15 @@ CHECKS["C18"] = {
     "note": COMMON_NOTE + " Turnover / HHI / Result.prices are tied by correspondence to definitional model functions (their 'stated formula' is the definition); the "
             "ReplayTransactions round trip is a relational test on implementation and model, not a theorem. Known finding K16 (fee on spread-inclusive price in replays); four "
             "report defects were repaired (no-securities transactions / turnover, bid-offer per ticker, multiplier)."}
+CHECKS["C19"] = {
+    "text": "Theorems (any number type, every declaration tree of any depth): the universe build gives a strategy is the data filtered to the tickers it declared "
+            "(unfiltered when it declared nothing or its sub-strategies were attached later), with one column per sub-strategy; the position mode and commission "
+            "function handed to the backtest reach every node construction creates (paper copies included) and every security created later by first use; a "
+            "lazily created security reads the same price column from its strategy's filtered universe as an eagerly built one from the data (partial: the "
+            "whole lazy = eager statement is decided relationally). Suites: trees of depth 1-3 assembled from lists / dicts / strings / lazy_add and eager Security "
+            "objects / parent= attachment, with shared tickers; structure read from public attributes (parent, root, members, full names, sibling uniqueness, "
+            "settings, universe columns) against the declared tree after construction and after the run; every case re-run with all lazy declarations made eager "
+            "(histories agree, absent nodes are zero); duplicate sibling names must raise; every run bit for bit against the model.",
+    "note": COMMON_NOTE + " In the model a node has no parent / root pointers (its position is its identity), so pointer consistency is a property of the implementation only and is sampled by the "
+            "wiring suite; lazy = eager over whole runs is relational testing on both sides. A defect found here (paper copies' descendants pointing at a zombie root) was repaired."}
 NOT_APPLICABLE = {}
